@@ -429,6 +429,7 @@ type c16Case struct {
 	Values  []uint64 `json:"values"`
 	Invalid string   `json:"invalid,omitempty"` // "", "order", "len"
 	NElts   int      `json:"n_elts,omitempty"`
+	History []int    `json:"history,omitempty"` // receiver history: op = 2*content + form (0 Init, 1 proto.Unmarshal)
 }
 
 func kindByName(n string) arrKind {
@@ -635,6 +636,7 @@ type c16Unit struct {
 	kind   string
 	lo, hi uint32 // subset masks [lo,hi)
 	univ   int
+	hist   []int // receiver history
 }
 
 func c16Value(index int32, pattern int, width int) uint64 {
@@ -650,7 +652,7 @@ func c16Value(index int32, pattern int, width int) uint64 {
 
 func runC16(r *h.Run) {
 	thorough := r.Tier == "thorough"
-	r.Rule = "every subset of the 16-position index universe {0,1,2,31,62,63,64,65,127,128,129,255,256,300,511,512} (65536 sets: dense, sparse, empty 64-bit words, single, empty) and of a 14-position universe reaching 2^20-1; element types U16 U32 U64 I16 I32 I64, a fixed-size 8-byte struct, a 6-byte struct (encoded size not a power of two), three unnamed element types (anonymous 12- and 6-byte structs, [4]byte) whose arrays coexist in the process, and the generic array with a preset big-endian TypeEncoder over uint32 / int64; values f(index,pattern) over the lane alphabet (3 patterns in thorough, 1 in quick), plus all 2^16 values in one-element arrays of the 16-bit types; probes: every index of the bitmap span (second universe: every universe index +-1 and every touched word boundary); typed Get, generic Array.Get and Base.GetBytes against map[int32]T, on the fresh arrays and after proto.Marshal/Unmarshal of both the typed and the generic array into both the typed type and array.NewEmpty(zero); invalid: every index sequence of length <= 4 over a 6-position universe and element slices longer or shorter by 1..3 => ErrIndexNotAscending / ErrIndexLen and a nil array. A state is a distinct (kind, index set, pattern); non-trivial = at least 2 elements"
+	r.Rule = "every subset of the 16-position index universe {0,1,2,31,62,63,64,65,127,128,129,255,256,300,511,512} (65536 sets: dense, sparse, empty 64-bit words, single, empty) and of a 14-position universe reaching 2^20-1; element types U16 U32 U64 I16 I32 I64, a fixed-size 8-byte struct, a 6-byte struct (encoded size not a power of two), three unnamed element types (anonymous 12- and 6-byte structs, [4]byte) whose arrays coexist in the process, and the generic array with a preset big-endian TypeEncoder over uint32 / int64; values f(index,pattern) over the lane alphabet (3 patterns in thorough, 1 in quick), plus all 2^16 values in one-element arrays of the 16-bit types; probes: every index of the bitmap span (second universe: every universe index +-1 and every touched word boundary); typed Get, generic Array.Get and Base.GetBytes against map[int32]T, on the fresh arrays and after proto.Marshal/Unmarshal of both the typed and the generic array into both the typed type and array.NewEmpty(zero); receiver histories: every sequence of 1..3 fills of ONE generic receiver over 5 contents (same indexes with other values, same count at other indexes, another count, empty) x {Init, proto.Unmarshal}, every index of the span read after each fill; invalid: every index sequence of length <= 4 over a 6-position universe and element slices longer or shorter by 1..3 => ErrIndexNotAscending / ErrIndexLen and a nil array. A state is a distinct (kind, index set, pattern); non-trivial = at least 2 elements"
 	r.Assumptions = []string{"(zero,false) is claimed within the bitmap span only; probing beyond the span is outside the statement"}
 	kinds := arrKinds()
 	patterns := 1
@@ -806,6 +808,131 @@ func runC16(r *h.Run) {
 		rec(nil)
 		w.Sample(map[string]interface{}{"kind": u.kind, "invalid_sequences": "all index sequences of length <= 4 over {0,1,63,64,65,200} x element counts off by -3..3"})
 	})
+	// receiver histories: every sequence of 1..3 fills of ONE generic receiver
+	// over 5 contents x {Init, proto.Unmarshal}, everything read after each fill
+	r.Bounds["receiver_histories"] = "sequences of 1..3 fills over 5 contents x {Init, proto.Unmarshal} per kind that has a generic form"
+	r.Phase("receiver-histories", func(emit func(u interface{}) bool) {
+		for _, k := range kinds {
+			var rec func(cur []int) bool
+			rec = func(cur []int) bool {
+				if len(cur) > 0 {
+					if !emit(c16Unit{kind: k.name, hist: append([]int{}, cur...)}) {
+						return false
+					}
+				}
+				if len(cur) == 3 {
+					return true
+				}
+				for op := 0; op < 10; op++ {
+					if !rec(append(cur, op)) {
+						return false
+					}
+				}
+				return true
+			}
+			if !rec(nil) {
+				return
+			}
+		}
+	}, func(w *h.Worker, x interface{}) {
+		u := x.(c16Unit)
+		k := kindByName(u.kind)
+		w.Begin(func() string { return fmt.Sprintf("C16 %s receiver history %v", u.kind, u.hist) })
+		w.Evals++
+		w.Tick()
+		w.StatesN++
+		if len(u.hist) >= 2 {
+			w.NontrivN++
+		}
+		if msg := evalC16History(w, k, u.hist); msg != "" {
+			w.Report(h.Viol{Sig: "array-history-" + u.kind, Msg: fmt.Sprintf("array kind %s: %s", u.kind, msg), Kind: "c16", Case: c16Case{Kind: u.kind, History: u.hist}, Unit: w.Unit()})
+			return
+		}
+		if len(u.hist) == 3 && u.hist[0] == 3 {
+			w.Sample(map[string]interface{}{"kind": u.kind, "receiver_history": u.hist})
+		}
+	})
+}
+
+// ---------- receiver histories ----------
+
+// c16Contents is the content alphabet of the receiver histories: same indexes
+// with other values, the same count at other indexes, another count, empty.
+func c16Contents(width int) (idx [][]int32, vals [][]uint64) {
+	idx = [][]int32{{1, 5, 64}, {1, 5, 64}, {0, 63, 200}, {2, 3, 4, 70, 300}, {}}
+	for ci, ix := range idx {
+		v := make([]uint64, len(ix))
+		for i, x := range ix {
+			v[i] = c16Value(x, ci%3, width) + uint64(ci)*0x0101010101010101
+		}
+		vals = append(vals, v)
+	}
+	return
+}
+
+// typedElts makes the typed element slice of a kind from raw values.
+func typedElts(k arrKind, vals []uint64) interface{} {
+	t := reflect.TypeOf(k.toIface(0))
+	sl := reflect.MakeSlice(reflect.SliceOf(t), len(vals), len(vals))
+	for i, v := range vals {
+		sl.Index(i).Set(reflect.ValueOf(k.toIface(v)))
+	}
+	return sl.Interface()
+}
+
+// evalC16History fills ONE generic receiver several times (Init, or
+// proto.Unmarshal of the bytes of a separately built array), reading everything
+// after each fill: the receiver must always behave as the array of the last fill.
+func evalC16History(w *h.Worker, k arrKind, hist []int) string {
+	cidx, cvals := c16Contents(k.width)
+	var msg string
+	if p := h.Safely(func() {
+		g, err := k.genericEmpty()
+		if err != nil {
+			msg = "array.NewEmpty failed: " + err.Error()
+			return
+		}
+		for step, op := range hist {
+			ci, form := op/2, op%2
+			ref := map[int32]uint64{}
+			for i, x := range cidx[ci] {
+				ref[x] = cvals[ci][i]
+			}
+			src, err := k.generic(cidx[ci], cvals[ci])
+			if err != nil {
+				msg = "array.New rejected valid input: " + err.Error()
+				return
+			}
+			if form == 0 {
+				// the same typed element slice the constructor was given
+				if err := g.Init(cidx[ci], typedElts(k, cvals[ci])); err != nil {
+					msg = fmt.Sprintf("step %d: Init on a used receiver rejected valid input: %v", step, err)
+					return
+				}
+			} else {
+				buf, err := proto.Marshal(src)
+				if err != nil {
+					msg = "proto.Marshal failed: " + err.Error()
+					return
+				}
+				if err := proto.Unmarshal(buf, g); err != nil {
+					msg = fmt.Sprintf("step %d: proto.Unmarshal into a used receiver failed: %v", step, err)
+					return
+				}
+			}
+			w.Trans++
+			var probes []int32
+			for i := int32(0); i < 320; i++ {
+				probes = append(probes, i)
+			}
+			if msg = checkArr(w, k, nil, g, ref, probes, fmt.Sprintf("after fill %d of history %v", step, hist)); msg != "" {
+				return
+			}
+		}
+	}); p != nil {
+		return fmt.Sprintf("panic: %v", p)
+	}
+	return msg
 }
 
 func replayC16(prop string, raw []byte) *h.Viol {
@@ -816,7 +943,9 @@ func replayC16(prop string, raw []byte) *h.Viol {
 	w := h.NewRun(prop, "quick", 0, "model_checking", 0).W0()
 	k := kindByName(cj.Kind)
 	var msg string
-	if cj.Invalid != "" {
+	if cj.History != nil {
+		msg = evalC16History(w, k, cj.History)
+	} else if cj.Invalid != "" {
 		msg = evalC16Invalid(w, k, cj.Indexes, cj.NElts)
 	} else {
 		var probes []int32
